@@ -13,8 +13,8 @@
 #include <unistd.h>
 #include "ms_sched.h"
 
-enum { OP_NONE = 0, OP_START, OP_LOCK, OP_UNLOCK, OP_WAIT, OP_REACQ, OP_BCAST, OP_CREATE, OP_JOIN, OP_EXIT, OP_SIGNAL, OP_WOKEN, OP_SPURIOUS };
-static const char* OPN[] = {"none", "start", "lock", "unlock", "cond_wait", "reacquire", "broadcast", "create", "join", "exit", "signal", "woken-by-signal", "spurious-wakeup"};
+enum { OP_NONE = 0, OP_START, OP_LOCK, OP_UNLOCK, OP_WAIT, OP_REACQ, OP_BCAST, OP_CREATE, OP_JOIN, OP_EXIT, OP_SIGNAL, OP_WOKEN, OP_SPURIOUS, OP_LOAD, OP_STORE };
+static const char* OPN[] = {"none", "start", "lock", "unlock", "cond_wait", "reacquire", "broadcast", "create", "join", "exit", "signal", "woken-by-signal", "spurious-wakeup", "load", "store"};
 const char* ms_opname(int op) { return OPN[op]; }
 enum { ST_FREE = 0, ST_RUNNABLE, ST_CONDBLOCKED, ST_FINISHED };
 
@@ -28,6 +28,23 @@ static ms_rec g_rec[MS_MAXREC]; static int g_nrec;
 static int g_spurious_budget = 0;   /* how many spurious returns from cond_wait the scheduler may still inject (POSIX allows them) */
 static int g_choice_kind = 0;   /* 0: which thread runs next, 1: which waiter a signal wakes (distinguishes the two choice points of one signal) */
 
+/* ---- happens-before: vector clocks per thread and per mutex */
+static uint32_t VC[MS_MAXT][MS_MAXT], MVC[8][MS_MAXT];
+static void vc_join(uint32_t* a, const uint32_t* b) { for (int i = 0; i < MS_MAXT; i++) if (b[i] > a[i]) a[i] = b[i]; }
+/* ---- shadow memory for the access layer: last write epoch and last read epoch per thread, keyed by access address */
+#define SH_N (1u << 15)
+typedef struct { const void* addr; int wt; uint32_t wc; const void* wpc; uint32_t rc[MS_MAXT]; const void* rpc[MS_MAXT]; } shadow_t;
+static shadow_t* SH; static int g_mem_on = 0, g_active = 0; static int (*g_watch_cb)(const void*); static const char* (*g_describe_cb)(const void*);
+static ms_result g_race;   /* first race of this execution */
+static uint64_t g_nacc;
+static shadow_t* sh_find(const void* a, int create) {
+  uint64_t h = (uint64_t)(uintptr_t)a * 0x9e3779b97f4a7c15ULL; uint32_t i = (uint32_t)(h >> 40) & (SH_N - 1);
+  for (uint32_t k = 0; k < SH_N; k++, i = (i + 1) & (SH_N - 1)) {
+    if (SH[i].addr == a) return &SH[i];
+    if (SH[i].addr == NULL) { if (!create) return NULL; memset(&SH[i], 0, sizeof SH[i]); SH[i].addr = a; SH[i].wt = -1; return &SH[i]; }
+  }
+  fprintf(stderr, "ms_sched: shadow table full\n"); _exit(4);
+}
 static int mtx(const void* a) { for (int i = 0; i < nM; i++) if (M[i].addr == a) return i; M[nM].addr = a; M[nM].owner = -1; return nM++; }
 static int cnd(const void* a) { for (int i = 0; i < nC; i++) if (C[i].addr == a) return i; C[nC].addr = a; C[nC].waiters = 0; return nC++; }
 
@@ -40,6 +57,11 @@ static uint64_t sched_state(void) {
   /* which thread is running is deliberately not part of the state: the set of enabled operations, hence the futures, do not depend on it */
   h = mix(h, (uint64_t)g_choice_kind); h = mix(h, (uint64_t)g_spurious_budget);
   if (g_state_cb) h = mix(h, g_state_cb());
+  /* The vector clocks are deliberately NOT part of the canonical state. Race detection stays complete under state matching:
+   * if two plain accesses a (thread A) and f (thread B) can race, there is a reachable state in which A has performed a in
+   * its last stretch (so has not released anything since) and B's next stretch contains f; every transition of every state
+   * is executed, and in the execution that performs B's step from that state a's epoch is still unpublished, whatever path
+   * led there — so the check below reports it. */
   return h;
 }
 static int enabled(int i) {
@@ -51,7 +73,7 @@ static int enabled(int i) {
   }
 }
 static void finish(int outcome) {
-  ms_result r; r.outcome = outcome; r.nrec = g_nrec; r.nsteps = g_steps; r.final_state = sched_state(); r.unfinished_mask = 0;
+  ms_result r = g_race; r.naccesses = g_nacc; r.outcome = outcome; r.nrec = g_nrec; r.nsteps = g_steps; r.final_state = sched_state(); r.unfinished_mask = 0;
   for (int i = 0; i < nthr; i++) if (T[i].status != ST_FINISHED && i != 0) r.unfinished_mask |= 1 << i;
   if (write(g_fd, &r, sizeof r) != (ssize_t)sizeof r) _exit(9);
   if (g_nrec && write(g_fd, g_rec, sizeof(ms_rec) * g_nrec) < 0) _exit(9);
@@ -100,9 +122,10 @@ static void yield_blocked(void) {
 
 void ms_begin(const int* prefix, int nprefix, int out_fd, uint64_t (*state_cb)(void), int step_limit) {
   memset(T, 0, sizeof T); nthr = 1; cur = 0; nM = nC = 0; g_prefix = prefix; g_nprefix = nprefix; g_pos = 0; g_fd = out_fd; g_steps = 0; g_limit = step_limit; g_state_cb = state_cb; g_nrec = 0; g_choice_kind = 0; { const char* e = getenv("MS_SPURIOUS"); g_spurious_budget = e ? atoi(e) : 0; }
+  memset(VC, 0, sizeof VC); memset(MVC, 0, sizeof MVC); VC[0][0] = 1; memset(&g_race, 0, sizeof g_race); g_nacc = 0; if (g_mem_on) { if (!SH) SH = (shadow_t*)calloc(SH_N, sizeof(shadow_t)); else memset(SH, 0, SH_N * sizeof(shadow_t)); } g_active = 1;
   T[0].status = ST_RUNNABLE; sem_init(&T[0].sem, 0, 0);
 }
-void ms_end(uint64_t final_hash) { (void)final_hash; g_state_cb = NULL; T[0].status = ST_FINISHED; finish(MS_COMPLETE); }
+void ms_end(uint64_t final_hash) { (void)final_hash; g_state_cb = NULL; g_active = 0; T[0].status = ST_FINISHED; finish(MS_COMPLETE); }
 int ms_nthreads_created(void) { return nthr - 1; }
 void* ms_thread_arg(int id) { return (id > 0 && id < nthr) ? T[id].arg : NULL; }
 
@@ -122,6 +145,7 @@ int ms_create(pthread_t* out, const pthread_attr_t* attr, void* (*fn)(void*), vo
   if (nthr >= MS_MAXT) { fprintf(stderr, "ms_sched: too many threads\n"); _exit(4); }
   int k = nthr++;
   T[k].status = ST_RUNNABLE; T[k].op = OP_START; T[k].site = (const void*)fn; T[k].fn = fn; T[k].arg = arg; T[k].joined = 0;
+  memcpy(VC[k], VC[cur], sizeof VC[k]); VC[k][k] = 1; VC[cur][cur]++;   /* create happens-before everything the child does */
   sem_init(&T[k].sem, 0, 0);
   if (pthread_create(&T[k].real, NULL, trampoline, &T[k]) != 0) { fprintf(stderr, "ms_sched: pthread_create failed\n"); _exit(4); }
   *out = (pthread_t)(uintptr_t)(k + 1000);
@@ -133,7 +157,7 @@ int ms_join(pthread_t th, void** ret) {
   T[cur].target = k;
   point(OP_JOIN, NULL, __builtin_return_address(0));
   if (T[k].joined) { fprintf(stderr, "ms_sched: thread joined twice\n"); _exit(5); }
-  T[k].joined = 1;
+  T[k].joined = 1; vc_join(VC[cur], VC[k]);   /* everything the joined thread did happens-before the return of join */
   pthread_join(T[k].real, NULL);
   if (ret) *ret = NULL;
   return 0;
@@ -152,11 +176,12 @@ int ms_mutex_destroy(pthread_mutex_t* m) { int i = mtx(m); if (M[i].owner != -1)
 int ms_mutex_lock(pthread_mutex_t* m) {
   if (M[mtx(m)].owner == cur) { fprintf(stderr, "ms_sched: relock of an owned mutex\n"); _exit(5); }
   point(OP_LOCK, m, __builtin_return_address(0));
-  M[mtx(m)].owner = cur; return 0;
+  M[mtx(m)].owner = cur; vc_join(VC[cur], MVC[mtx(m)]); return 0;
 }
 int ms_mutex_unlock(pthread_mutex_t* m) {
   if (M[mtx(m)].owner != cur) { fprintf(stderr, "ms_sched: unlock of a mutex not owned\n"); _exit(5); }
   point(OP_UNLOCK, m, __builtin_return_address(0));
+  memcpy(MVC[mtx(m)], VC[cur], sizeof VC[cur]); VC[cur][cur]++;
   M[mtx(m)].owner = -1; return 0;
 }
 int ms_cond_init(pthread_cond_t* c, const pthread_condattr_t* a) { (void)a; C[cnd(c)].waiters = 0; return 0; }
@@ -166,11 +191,12 @@ int ms_cond_wait(pthread_cond_t* c, pthread_mutex_t* m) {
   point(OP_WAIT, c, __builtin_return_address(0));
   /* atomically release the mutex and block */
   int me = cur;
+  memcpy(MVC[mtx(m)], VC[me], sizeof VC[me]); VC[me][me]++;
   M[mtx(m)].owner = -1; C[cnd(c)].waiters |= 1u << me;
   T[me].status = ST_CONDBLOCKED; T[me].op = OP_REACQ; T[me].obj = m;
   yield_blocked();
   /* woken by a broadcast and chosen while the mutex is free */
-  M[mtx(m)].owner = me; return 0;
+  M[mtx(m)].owner = me; vc_join(VC[me], MVC[mtx(m)]); return 0;
 }
 int ms_cond_broadcast(pthread_cond_t* c) {
   point(OP_BCAST, c, __builtin_return_address(0));
@@ -196,3 +222,26 @@ int ms_cond_signal(pthread_cond_t* c) {
   return 0;
 }
 int ms_setaffinity(int pid, size_t sz, const void* set) { (void)pid; (void)sz; (void)set; return 0; }
+
+/* ---------------------------------------------------------------- memory-access layer */
+void ms_mem_enable(int (*watch_cb)(const void*), const char* (*describe_cb)(const void*)) { g_mem_on = 1; g_watch_cb = watch_cb; g_describe_cb = describe_cb; }
+void ms_mem_fresh(const void* addr, size_t size) {
+  if (!g_mem_on || !g_active || !SH) return;
+  /* forget the history of every remembered access inside the block (tombstone: keep the slot, reset its epochs) */
+  for (uint32_t i = 0; i < SH_N; i++) if (SH[i].addr && (const char*)SH[i].addr >= (const char*)addr && (const char*)SH[i].addr < (const char*)addr + size) { SH[i].wt = -1; SH[i].wc = 0; memset(SH[i].rc, 0, sizeof SH[i].rc); }
+}
+static void race(int kind, int t1, int t2, const void* addr, const void* pc1, const void* pc2) {
+  if (g_race.nraces++ == 0) { g_race.race_kind = kind; g_race.race_t1 = t1; g_race.race_t2 = t2; g_race.race_addr = (uintptr_t)addr; g_race.race_pc1 = (uintptr_t)pc1; g_race.race_pc2 = (uintptr_t)pc2; const char* w = g_describe_cb ? g_describe_cb(addr) : NULL; snprintf(g_race.race_what, sizeof g_race.race_what, "%s", w ? w : "?"); }
+}
+void ms_mem_access(const void* addr, int size, int is_write, const void* pc) {
+  (void)size;
+  if (!g_mem_on || !g_active) return;
+  if (g_watch_cb && g_watch_cb(addr)) point(is_write ? OP_STORE : OP_LOAD, addr, pc);   /* a protocol variable: others may run first */
+  int me = cur; g_nacc++;
+  shadow_t* s = sh_find(addr, 1);
+  if (s->wt >= 0 && s->wt != me && s->wc > VC[me][s->wt]) race(is_write ? 1 : 2, s->wt, me, addr, s->wpc, pc);
+  if (is_write) {
+    for (int r = 0; r < nthr; r++) if (r != me && s->rc[r] > VC[me][r]) race(3, r, me, addr, s->rpc[r], pc);
+    s->wt = me; s->wc = VC[me][me]; s->wpc = pc; memset(s->rc, 0, sizeof s->rc);
+  } else { s->rc[me] = VC[me][me]; s->rpc[me] = pc; }
+}
